@@ -124,15 +124,16 @@ type Report struct {
 	Engine string
 	start  time.Time
 
-	mu         sync.Mutex
-	Cov        map[string]any
-	Assume     []string
-	violations []*Violation
-	known      map[string]int // finding id -> matches
-	findings   []*Finding
-	samples    []any
-	exhaustive bool
-	capsHit    []string
+	mu           sync.Mutex
+	Cov          map[string]any
+	Assume       []string
+	violations   []*Violation
+	known        map[string]int // finding id -> matches
+	findings     []*Finding
+	samples      []any
+	knownWitness map[string]string
+	exhaustive   bool
+	capsHit      []string
 }
 
 func NewReport(prop, tier, level, engine string) *Report {
@@ -195,6 +196,12 @@ func (r *Report) Violate(v *Violation) bool {
 	for _, f := range r.findings {
 		if f.matches(v) {
 			r.known[f.ID]++
+			if r.knownWitness == nil {
+				r.knownWitness = map[string]string{}
+			}
+			if _, ok := r.knownWitness[f.ID]; !ok {
+				r.knownWitness[f.ID] = v.Case + " => " + v.Diag
+			}
 			return false
 		}
 	}
@@ -269,6 +276,7 @@ func (r *Report) Finish() int {
 	cov["exhaustive"] = r.exhaustive
 	cov["caps_hit"] = r.capsHit
 	cov["known_findings_matched"] = knownOut
+	cov["known_finding_first_witness"] = r.knownWitness
 	cov["stale_findings"] = stale
 	if r.Assume == nil {
 		r.Assume = []string{}
